@@ -514,6 +514,51 @@ func ruleRecoveryReplay(c *RC) *RuleResult {
 			r.fail(h.Name+"/getter:"+g, c.Prog.Pos(h.Decl), "payloads returned by RecoveryMessage."+g+" are never replayed through OnReceive")
 		}
 	}
+	// scenario reachability: each replay must be reachable in the situations it exists for
+	m := msgParam()
+	mv := getter("ConsensusMessage", "ViewNumber", m, true)
+	scen := map[string][][]Lit{
+		"GetCommits":          {{{mkAtom("eq", mv, tViewNumber), true}}, {{mkAtom("lt", mv, tViewNumber), true}}},
+		"GetPreCommits":       {{{mkAtom("eq", mv, tViewNumber), true}}, {{mkAtom("lt", mv, tViewNumber), true}}},
+		"GetChangeViews":      {{{mkAtom("lt", tViewNumber, mv), true}}},
+		"GetPrepareRequest":   {{{mkAtom("eq", mv, tViewNumber), true}}},
+		"GetPrepareResponses": {{{mkAtom("eq", mv, tViewNumber), true}}},
+	}
+	for _, g := range getters {
+		ss, ok := scen[g]
+		if !ok {
+			continue
+		}
+		for _, sc := range ss {
+			r.Sites++
+			reach := false
+			for _, s := range c.A.FnSites[h] {
+				if s.Kind != "call" || s.Target != c.API["OnReceive"] {
+					continue
+				}
+				for _, sn := range s.Snaps {
+					if len(sn.Args) != 1 || !strings.Contains(sn.Args[0].S, "l:if:RecoveryMessage."+g+":") {
+						continue
+					}
+					f := sn.F.clone()
+					cons := true
+					for _, l := range sc {
+						if !f.add(l) {
+							cons = false
+						}
+					}
+					if cons {
+						reach = true
+					}
+				}
+			}
+			if reach {
+				r.ok(fmt.Sprintf("%s: replay of %s is reachable when %s", h.Name, g, sc[0].String()))
+			} else {
+				r.fail(h.Name+"/scenario:"+g+":"+sc[0].String(), c.Prog.Pos(h.Decl), "payloads from "+g+" are never replayed when "+sc[0].String()+" (the recovery message is their only retransmission path)")
+			}
+		}
+	}
 	// refresh of LastChangeViewPayloads
 	if ew := c.A.epochWriter; ew != nil {
 		r.Sites++
